@@ -47,7 +47,7 @@ func runForced(c ForcedCase) ev.Verdict {
 			caps = append(caps, sim.Cap11)
 		}
 
-		srv := &sim.NCServer{Hello: sim.HelloSpec{Caps: caps, SessionID: "8", Layout: "pretty"}.Render(), Version: c.Version}
+		srv := &sim.NCServer{Hello: sim.HelloSpec{Caps: append(append([]string{}, caps...), sim.StdCaps...), SessionID: "8", Layout: "pretty"}.Render(), Version: c.Version}
 		pipe := sim.NewPipe(srv)
 		srv.Pipe = pipe
 
